@@ -126,3 +126,6 @@ def r14_2(ctx):
 def run(ctx):
     r14_1(ctx)
     r14_2(ctx)
+    # "never returns to NONE": a resumed run must not re-derive component states from scratch (initialize(False, False) is a no-op)
+    from .C15 import r15_1
+    r15_1(ctx)
